@@ -705,7 +705,89 @@ def _eliminate_returns(stmts, retname):
     return out, False
 
 
-def inline_module_helpers(repo, rel, func, depth=2, methods=False, keep=()):
+def method_mro(repo, rel, cls, name):
+    """the method `name` of `cls` or of its base classes defined in the same
+    file (depth first, left to right)"""
+    seen = set()
+    todo = [cls]
+    index = {n.name: n for n in repo.tree(rel).body
+             if isinstance(n, ast.ClassDef)}
+    while todo:
+        c = todo.pop(0)
+        if c.name in seen:
+            continue
+        seen.add(c.name)
+        for st in c.body:
+            if isinstance(st, ast.FunctionDef) and st.name == name:
+                return st
+        todo = [index[b] for b in [(dotted(x) or "").split(".")[-1]
+                                   for x in c.bases] if b in index] + todo
+    return None
+
+
+def class_constants(repo, rel, cls):
+    """class-level constants visible on instances of `cls` (own + bases in
+    the file; nearer definitions win): name -> folded value"""
+    out = {}
+    index = {n.name: n for n in repo.tree(rel).body
+             if isinstance(n, ast.ClassDef)}
+    order, todo = [], [cls]
+    while todo:
+        c = todo.pop(0)
+        if c in order:
+            continue
+        order.append(c)
+        todo += [index[b] for b in [(dotted(x) or "").split(".")[-1]
+                                    for x in c.bases] if b in index]
+    for c in reversed(order):
+        for st in c.body:
+            if isinstance(st, ast.Assign) and len(st.targets) == 1 \
+                    and isinstance(st.targets[0], ast.Name):
+                try:
+                    out[st.targets[0].id] = Mini({}).ev(st.value)
+                except Unknown:
+                    pass
+    return out
+
+
+def resolve_imported(repo, rel, name, func=None, depth=3):
+    """(rel2, FunctionDef) of a module-level function bound to `name` in
+    file `rel` by a from-import (module level, or inside `func`), following
+    re-exports of package __init__ files"""
+    if depth == 0:
+        return None
+    imps = [st for st in repo.tree(rel).body
+            if isinstance(st, ast.ImportFrom)]
+    if func is not None:
+        imps += [st for st in walk(func) if isinstance(st, ast.ImportFrom)]
+    for st in imps:
+        for a in st.names:
+            if (a.asname or a.name) != name:
+                continue
+            parts = rel.split("/")[:-1]
+            if st.level:
+                parts = parts[:len(parts) - (st.level - 1)]
+            else:
+                parts = []
+            mod = parts + (st.module.split(".") if st.module else [])
+            for cand in ("/".join(mod) + ".py",
+                         "/".join(mod) + "/__init__.py"):
+                if not repo.exists(cand):
+                    continue
+                f2 = repo.lookup(cand, a.name, missing_ok=True)
+                if isinstance(f2, ast.FunctionDef) and isinstance(
+                        f2.parent, ast.Module):
+                    return cand, f2
+                if f2 is None:
+                    r = resolve_imported(repo, cand, a.name, None,
+                                         depth - 1)
+                    if r is not None:
+                        return r
+    return None
+
+
+def inline_module_helpers(repo, rel, func, depth=2, methods=False, keep=(),
+                          imports=False):
     """copy of `func` in which calls of helpers are replaced by the helper's
     body and its result: module-level functions of the same file and – with
     `methods` – private methods (``self._x`` / ``cls._x`` / ``Class._x``) of
@@ -719,21 +801,29 @@ def inline_module_helpers(repo, rel, func, depth=2, methods=False, keep=()):
     cls = getattr(func, "parent", None)
     cls = cls if isinstance(cls, ast.ClassDef) else None
 
+    inlined_names = set()
+    cur_rel = [rel]
+
     def helper_of(call):
         f = call.func
         h, skip_self = None, False
+        call._h_rel = cur_rel[0]
         if isinstance(f, ast.Name):
-            h = repo.func(rel, f.id, missing_ok=True)
-            if h is not None and not isinstance(h.parent, ast.Module):
+            h = repo.lookup(cur_rel[0], f.id, missing_ok=True)
+            if not isinstance(h, ast.FunctionDef) or not isinstance(
+                    h.parent, ast.Module):
                 h = None
-        elif methods and cls is not None and isinstance(
-                f, ast.Attribute) and isinstance(
+            if h is None and imports:
+                r = resolve_imported(repo, cur_rel[0], f.id,
+                                     func if cur_rel[0] == rel else None)
+                if r is not None:
+                    call._h_rel, h = r
+        elif methods and cls is not None and cur_rel[0] == rel \
+                and isinstance(f, ast.Attribute) and isinstance(
                 f.value, ast.Name) and f.value.id in (
                 "self", "cls", cls.name) and f.attr.startswith("_") \
                 and not f.attr.startswith("__"):
-            for st in cls.body:
-                if isinstance(st, ast.FunctionDef) and st.name == f.attr:
-                    h = st
+            h = method_mro(repo, rel, cls, f.attr)
             if h is not None:
                 decos = [txt(d) for d in h.decorator_list]
                 if any(d not in ("staticmethod", "classmethod")
@@ -759,9 +849,10 @@ def inline_module_helpers(repo, rel, func, depth=2, methods=False, keep=()):
             return None
         return h, skip_self
 
-    def expand(call, h, skip_self):
+    def expand(call, h, skip_self, target=None):
         counter[0] += 1
         tag = f"_h{counter[0]}"
+        inlined_names.add(h.name)
         pos = h.args.args[1:] if skip_self else h.args.args
         params = [x.arg for x in pos + h.args.kwonlyargs]
         bound = {}
@@ -815,9 +906,19 @@ def inline_module_helpers(repo, rel, func, depth=2, methods=False, keep=()):
         locs = (stored | set(params)) - {retname}
         direct = {}
         pre = []
+        # in-out parameter: `x = helper(p=x)` where the helper updates `p`
+        # and ends with `return p` – the helper works on `x` itself
+        inout = None
+        if target is not None and single and isinstance(
+                ret, ast.Name) and ret.id in params and isinstance(
+                bound[ret.id], ast.Name) and bound[ret.id].id == target:
+            inout = ret.id
+            locs = locs - {inout}
         for prm in params:
             v = bound[prm]
             simple = isinstance(v, (ast.Name, ast.Constant))
+            if prm == inout:
+                continue
             if prm not in stored and (simple or loads.get(prm, 0) <= 1):
                 direct[prm] = v
             else:
@@ -833,6 +934,9 @@ def inline_module_helpers(repo, rel, func, depth=2, methods=False, keep=()):
                 if node.id in locs:
                     return ast.copy_location(ast.Name(
                         id=node.id + tag, ctx=node.ctx), node)
+                if inout is not None and node.id == inout:
+                    return ast.copy_location(ast.Name(
+                        id=target, ctx=node.ctx), node)
                 return node
 
             def visit_FunctionDef(self, node):
@@ -879,11 +983,21 @@ def inline_module_helpers(repo, rel, func, depth=2, methods=False, keep=()):
                         hh = helper_of(node)
                         if hh is None:
                             return node
-                        ex = expand(node, *hh)
+                        tg = None
+                        if isinstance(st, ast.Assign) and st.value is node \
+                                and len(st.targets) == 1 and isinstance(
+                                    st.targets[0], ast.Name):
+                            tg = st.targets[0].id
+                        ex = expand(node, *hh, target=tg)
                         if ex is None:
                             return node
                         body, ret = ex
-                        pre.extend(process(body, level + 1))
+                        prev = cur_rel[0]
+                        cur_rel[0] = getattr(node, "_h_rel", prev)
+                        try:
+                            pre.extend(process(body, level + 1))
+                        finally:
+                            cur_rel[0] = prev
                         return ast.copy_location(ret, node)
                 setattr(st, part, T().visit(getattr(st, part)))
                 for p_ in pre:
@@ -894,6 +1008,11 @@ def inline_module_helpers(repo, rel, func, depth=2, methods=False, keep=()):
                 if pre and isinstance(st, ast.Expr) and isinstance(
                         st.value, ast.Constant):
                     continue        # the inlined procedure call itself
+                if pre and isinstance(st, ast.Assign) and len(
+                        st.targets) == 1 and isinstance(
+                        st.targets[0], ast.Name) and is_name_(
+                        st.value, st.targets[0].id):
+                    continue        # x = x after an in-out helper
                 if pre and isinstance(st, ast.Assign) and len(
                         st.targets) == 1 and isinstance(
                         st.targets[0], ast.Tuple) and isinstance(
@@ -910,7 +1029,12 @@ def inline_module_helpers(repo, rel, func, depth=2, methods=False, keep=()):
         return out
     new.body = process(new.body, 0)
     new.inlined = counter[0]
+    new.inlined_names = inlined_names
     return _finish(new, func)
+
+
+def is_name_(e, name):
+    return isinstance(e, ast.Name) and e.id == name
 
 
 def run_straight(func, env, consts=None):
